@@ -217,6 +217,9 @@ pub fn bad_picture(g: &mut Gen, cfg: &PicCfg, like: &Header, kind: BadKind, inte
         _ => {}
     }
     let mut hdr = gen_header(g, like.mode, like.version, like.size, ptype);
+    if ptype != PicType::I {
+        follow(&mut hdr, like);
+    }
     hdr.tr = tr;
     let total = hdr.mb_dims().map(|(a, b)| a * b).unwrap_or(1).max(1);
     let good = if g.chance(1, 2) { 0 } else { g.range(0, (total as i64 - 1).min(12)) as usize };
